@@ -308,11 +308,37 @@ impl<'a> Gen<'a> {
                 let lf = self.leaf(scope, inf);
                 G::Leaf(lf)
             } else if r < 88 && self.o.calls {
-                match self.w.below(5) {
+                match self.w.below(if self.o.neq { 9 } else { 6 }) {
                     0 | 1 => {
                         let x = self.var_or_atom(scope);
                         let l = self.proper_list(scope, 3);
                         G::Call(Rel::Member, vec![x, l])
+                    }
+                    5 => {
+                        // first / rest / empty of a list
+                        let l = self.proper_list(scope, 3);
+                        let x = self.var_or_atom(scope);
+                        match self.w.below(3) {
+                            0 => G::Call(Rel::First, vec![l, x]),
+                            1 => G::Call(Rel::Rest, vec![l, x]),
+                            _ => G::Call(Rel::Empty, vec![x]),
+                        }
+                    }
+                    6 => {
+                        // relations that post disequalities (only where the check compares them)
+                        let l = self.proper_list(scope, 4);
+                        G::Call(Rel::Distinct, vec![l])
+                    }
+                    7 => {
+                        let x = self.var_or_atom(scope);
+                        let l = self.proper_list(scope, 3);
+                        G::Call(Rel::Member1, vec![x, l])
+                    }
+                    8 => {
+                        let x = self.var_or_atom(scope);
+                        let l = self.proper_list(scope, 3);
+                        let out = self.var_or_atom(scope);
+                        G::Call(Rel::Rember, vec![x, l, out])
                     }
                     2 => {
                         let a = self.proper_list(scope, 2);
